@@ -25,7 +25,7 @@ instance (t : Id) (attrs : List Attr) : PB (sinkUnit (.addAttrsIfMissing t attrs
       | error e => simp [ha] at h'
       | ok d1 => simp [ha] at h'; rw [h'.1]
     obtain ⟨hb', hc', hk⟩ := addAttrsIfMissing_spec hl.base hd'
-    exact ⟨hb.dom (hl.dom hb' hc' (hk 0)).1 rfl hc' (rs_addAttrs hl.base hd') (hk 0), rfl, rfl⟩⟩
+    exact ⟨hb.dom (hl.dom hb' hc' (hk 0)).1 rfl hc' (rs_addAttrs hl.base hd') (hk 0) (addAttrs_adj hb.adj hd'), rfl, rfl⟩⟩
 
 instance : PB (modS fun s => { s with ignoreLf := true }) :=
   ⟨fun m r ph s a s' hb e => by
@@ -196,7 +196,7 @@ theorem Core.modes {s : State} {r : Id} {up : List Id} {ph : Phase} (h : Core s 
     Core { s with mode := m', origMode := om' } r up ph :=
   ⟨⟨h.late.base, h.late.pat, ⟨h.late.st.doc, h.late.st.ctx, h.late.st.oe, h.late.st.tail, h.late.st.head,
       h.late.st.ptt⟩, ⟨hm, ho, h.late.ml.tm⟩⟩,
-    h.stack, h.rdoc, h.nodup, h.tg, h.afn, h.tc, h.tmm, h.form, h.rtu, h.rnd, h.kids, h.elems, h.bh, h.afx⟩
+    h.stack, h.rdoc, h.nodup, h.tg, h.afn, h.tc, h.tmm, h.form, h.rtu, h.rnd, h.kids, h.elems, h.bh, h.afx, h.adj⟩
 
 theorem isLate_of_bl {m : Mode} (h : isBL m = true) : isLate m = true := by
   rcases isBL_cases h with rfl | rfl | rfl | rfl | rfl | rfl | rfl | rfl <;> rfl
